@@ -60,13 +60,15 @@ pub fn unify(state: &mut TypeCheckerState, watchdog: &DynWatchdog) -> Result<()>
     let mut counter = 0;
 
     // Cyclic evidence can re-derive, every round, exactly the judgements that the round
-    // has just folded away. Such a round leaves the forest as it found it and would repeat
-    // forever, so when we see one we fold a final time without re-applying its output.
+    // has just folded away, or alternate between a few forests from round to round. A round
+    // that ends in a forest we have already been in can only repeat what followed it, so
+    // when we see one we fold a final time without re-applying its output.
     let mut final_pass = false;
+    let mut forests_seen: Vec<UnificationForest> = Vec::new();
 
     // Then, we loop until we stop making progress.
     loop {
-        let forest_before = forest.clone();
+        forests_seen.push(forest.clone());
 
         // Create the set of new equalities.
         let mut all_equalities: HashSet<Equality> = HashSet::new();
@@ -159,8 +161,8 @@ pub fn unify(state: &mut TypeCheckerState, watchdog: &DynWatchdog) -> Result<()>
             break;
         }
 
-        // A round that changed nothing can only repeat itself
-        final_pass = forest == forest_before;
+        // A round that ends where an earlier round began can only repeat what followed
+        final_pass = forests_seen.contains(&forest);
     }
 
     state.set_result(forest);
